@@ -353,6 +353,7 @@ func runProp(prop, modeName, tier string, seed uint64, outPath, replayDir, known
 					if keepOverride != nil {
 						keep = keepOverride
 					}
+					wedgesBefore := lockWedges.Load()
 					t, err := j.spec.Run(keep)
 					if err != nil {
 						mu.Lock()
@@ -369,7 +370,13 @@ func runProp(prop, modeName, tier string, seed uint64, outPath, replayDir, known
 						return
 					}
 					diffs, mons := relevant(ps, v)
-					if (len(diffs) > 0 || len(mons) > 0) && watchdogExpired(t) && confirmedHangs.Load() < 3 {
+					if (len(diffs) > 0 || len(mons) > 0) && watchdogExpired(t) && lockWedges.Load() > wedgesBefore {
+						// goroutines of the code under test were found parked on a mutex for seconds
+						// while this case ran: a deadlock, which need not show again when run alone
+						mu.Lock()
+						sum.Cov["watchdog.expired-with-goroutines-parked-on-a-mutex"]++
+						mu.Unlock()
+					} else if (len(diffs) > 0 || len(mons) > 0) && watchdogExpired(t) && confirmedHangs.Load() < 3 {
 						// a wall-clock limit expired: execute the case again with every limit
 						// multiplied; only a complaint that shows again is reported
 						wdSlow.Add(1)
